@@ -68,6 +68,11 @@ class MessageExtractor:
             elif isinstance(node, parsetree.CallNamespaceTag):
                 code = node.expression
                 child_nodes = node.nodes
+            elif isinstance(node, parsetree.NamespaceTag):
+                # defs may be written inline in <%namespace name="...">
+                if node.nodes:
+                    yield from self.extract_nodes(node.nodes)
+                continue
             elif isinstance(node, parsetree.ControlLine):
                 if node.isend:
                     in_translator_comments = False
